@@ -1,7 +1,7 @@
 (* C19 — obligations re-decided by the kernel for the tables generated from /repo on this run, non-vacuity of the
    hypotheses of C19/Props.v, and the refutations of the same statements for the unrepaired variant `orig`
    (witnesses replayed on the real code by tools/props/c19.py). *)
-From S2T Require Import Lib.PyStr C19.Model C19.Proofs C19.TextSpec Gen.C19Tables.
+From S2T Require Import Lib.PyStr C19.Model C19.Proofs C19.TextSpec C19.Depth Gen.C19Tables.
 From Coq Require Import List Bool NArith.
 Import ListNotations.
 Open Scope N_scope.
@@ -93,3 +93,11 @@ Theorem C19_texts_ok_nonvacuous :
      = s "\frac{a}{\beta}\sqrt[3]{x+1}\prod_{i}^{n} p(u, v)\begin{matrix}\begin{matrix}k & l\end{matrix} & w\end{matrix}\sin{y}\tilde{z}".
 Proof. repeat split; vm_compute; reflexivity. Qed.
 Print Assumptions C19_texts_ok_nonvacuous.
+
+(* ---- non-vacuity of C19_depth_equals_height_default and the depth of the sample formula *)
+Fixpoint chain (n : nat) : omml := match n with O => E "e" [] | S k => E "box" [E "e" [chain k]] end.
+Theorem C19_depth_examples :
+  all_default T (chain 50) = true /\ rec_depth T (chain 50) = 101%nat /\ height (chain 50) = 101%nat
+  /\ conv_depth T w_texts = 6%nat /\ height w_texts = 9%nat.
+Proof. repeat split; vm_compute; reflexivity. Qed.
+Print Assumptions C19_depth_examples.
